@@ -1,10 +1,11 @@
 #!/bin/bash
 # tools/run_all.sh [quick|thorough] [IDs...] : run the registered checks one after the other, summarise exit codes
+ROOT=$(cd "$(dirname "$0")/.." && pwd)
 tier=${1:-quick}; shift || true
-ids=${@:-$(python3 -c "import json;print(' '.join(c['property_id'] for c in json.load(open('/verif/MANIFEST.json'))['checks']))")}
+ids=${@:-$(python3 -c "import json;print(' '.join(c['property_id'] for c in json.load(open('$ROOT/MANIFEST.json'))['checks']))")}
 rc=0
 for id in $ids; do
-  s=$(date +%s); out=$(/verif/check $id --tier $tier 2>&1); c=$?; e=$(date +%s)
+  s=$(date +%s); out=$("$ROOT/check" $id --tier $tier 2>&1); c=$?; e=$(date +%s)
   echo "$id exit=$c $((e-s))s $(echo "$out" | grep -E 'VIOLATION|KNOWN-FINDING|INCONCLUSIVE' | head -3 | tr '\n' ' ')"
   [ $c -ne 0 ] && rc=1
 done
